@@ -1073,6 +1073,12 @@ func (w *vWorld) op(ws []string) (string, bool) {
 			s.onBackgroundTimer()
 			w.pump()
 		}
+	case "drop":
+		// the connection is gone: what Session.cleanUp does to the topics (the session object stays, it can subscribe again
+		// like a new connection of the same user would)
+		s.bkgTimer.Stop()
+		s.unsubAll()
+		w.pump()
 	case "unload":
 		// idle timeout of a topic (killTimer): the topic goes offline; the next request reloads it from the store
 		if t := globals.hub.topicGet(w.realTopic(ws[1], types.ZeroUid)); t != nil {
@@ -1115,6 +1121,10 @@ func (w *vWorld) op(ws []string) (string, bool) {
 	}
 	frames := w.drainSessions()
 	pushes := w.drainUsersUpdate()
+	if ws[0] == "drop" {
+		// unsubAll walks a map: the order in which the topics learn about it is not defined
+		sort.Strings(frames)
+	}
 	parts := []string{}
 	parts = append(parts, frames...)
 	parts = append(parts, pushes...)
